@@ -18,7 +18,7 @@ func init() {
 			"R4 dangling separator: a constant piece beginning or ending with ',' next to sqlJoin(x.F, …) is guarded when N.F may be empty; " +
 			"R5 token gluing: an operator printed directly in front of an operand whose SQL may start with the same character ('-' '-') forms a different token. " +
 			"C04 (SQL() total), C07 (parentheses) and C15 (quoting) cover other necessary conditions. Does not decide: ordering of the printed pieces, nested interactions, equality of the two trees.",
-		Rules: []ruleFn{ruleC01R1, ruleC01R2, ruleC01R3, ruleC01R4, ruleC01R5, ruleC01R6, ruleC02R4, ruleC15R1},
+		Rules: []ruleFn{ruleC01R1, ruleC01R2, ruleC01R3, ruleC01R4, ruleC01R5, ruleC01R6, ruleC02R4, ruleC15R1, ruleC07R2, ruleC07R4, ruleC14R2, ruleC01R7},
 	})
 }
 
@@ -981,5 +981,195 @@ func ruleC01R6(w *World, r *Report) {
 		} else {
 			r.ok(rule, construct, w.pos(m.fn.Pos()), fmt.Sprintf("%d printed field pairs agree with the parse order at every site", checked))
 		}
+	}
+}
+
+// ---- C01/R7: a decimal integer directly in front of '.' -------------------------------------------
+
+// intTokenTypes: node types the parser allocates only while the current token is an <int>: their text is the
+// spelling of a number token.
+func (w *World) intTokenTypes() map[string]bool {
+	tk := w.TKAI()
+	v := w.Value()
+	count := map[string][2]int{}
+	for _, fn := range w.ModFns {
+		if fnPkgPath(fn) != modRoot || fn.Blocks == nil {
+			continue
+		}
+		for _, b := range fn.Blocks {
+			for _, in := range b.Instrs {
+				al, ok := in.(*ssa.Alloc)
+				if !ok {
+					continue
+				}
+				n := v.nodeStructOf(al.Type())
+				if n == "" {
+					continue
+				}
+				c := count[n]
+				c[0]++
+				isInt := func(f KSet) bool {
+					atoms, fin := f.Finite()
+					return fin && len(atoms) == 1 && atoms[0] == "<int>"
+				}
+				if st := tk.StateBefore(al); st != nil && isInt(st.cur) {
+					c[1]++
+				} else {
+					// a field holds the spelling of an <int> token fetched earlier (i := p.expect(TokenInt); Value: i.Raw)
+					for _, val := range allocFieldStores(al) {
+						ld, ok := isLoad(stripConv(val))
+						if !ok {
+							continue
+						}
+						fa, ok := ld.(*ssa.FieldAddr)
+						if !ok || !(w.isTokenPtr(fa.X.Type())) || (fieldAddrName(fa) != "Raw" && fieldAddrName(fa) != "AsString") {
+							continue
+						}
+						at, _ := stripConv(val).(ssa.Instruction)
+						if at == nil {
+							continue
+						}
+						cur, srcs := tk.tokenSources(fa.X)
+						if cur {
+							if st := tk.StateBefore(at); st != nil && isInt(st.cur) {
+								c[1]++
+							}
+						}
+						for _, src := range srcs {
+							if isInt(tk.FactOf(src, at)) {
+								c[1]++
+							}
+						}
+					}
+				}
+				count[n] = c
+			}
+		}
+	}
+	out := map[string]bool{}
+	for n, c := range count {
+		if c[1] > 0 {
+			out[n] = true
+		}
+	}
+	return out
+}
+
+// lastTypesOf: the node types whose own text can be the last thing printed by SQL() of t (t itself when its
+// last piece is a plain string field; the operand types when it ends with an operand).
+func (w *World) lastTypesOf(t string, seen map[string]bool, out map[string]bool) {
+	if seen[t] {
+		return
+	}
+	seen[t] = true
+	ns := w.Catalog().ByName[t]
+	if ns == nil {
+		return
+	}
+	pm := w.PrintModel(ns)
+	if pm == nil || len(pm.seqs) == 0 {
+		out[t] = true
+		return
+	}
+	v := w.Value()
+	for _, seq := range pm.seqs {
+		done := false
+		for i := len(seq) - 1; i >= 0 && !done; i-- {
+			p := seq[i]
+			switch p.kind {
+			case "const":
+				if p.text != "" {
+					done = true
+				}
+			case "field-sql", "paren":
+				a := v.FieldAV(t, p.field)
+				for ct := range a.types {
+					w.lastTypesOf(ct, seen, out)
+				}
+				done = true
+			case "absent", "opt", "stropt":
+				// may print nothing: look further left as well
+				if p.kind != "absent" {
+					out[t] = true
+				}
+			default:
+				out[t] = true
+				done = true
+			}
+		}
+	}
+}
+
+func ruleC01R7(w *World, r *Report) {
+	const rule = "C01/R7"
+	r.rule(rule, "an operand whose text can end with a decimal integer token (a node type allocated only under an <int> token, possibly as the last operand of another expression) is never printed directly in front of a piece that starts with '.': \"1\" + \".x\" is lexed as the float \"1.\" followed by x; a separator computed from the operand's own text is accepted", 2)
+	ints := w.intTokenTypes()
+	if len(ints) == 0 {
+		r.errorf("no node type allocated under an <int> token found")
+		return
+	}
+	cat := w.Catalog()
+	v := w.Value()
+	n := 0
+	done := map[string]bool{}
+	for _, ns := range cat.Structs {
+		pm := w.PrintModel(ns)
+		if pm == nil {
+			continue
+		}
+		for _, seq := range pm.seqs {
+			for i := 0; i+1 < len(seq); i++ {
+				p := seq[i]
+				if p.kind != "field-sql" && p.kind != "paren" {
+					continue
+				}
+				j := i + 1
+				sepFromOperand := false
+				for j < len(seq) && seq[j].kind != "const" {
+					if seq[j].val != nil && p.val != nil && dependsOnDeep(seq[j].val, p.val) {
+						sepFromOperand = true
+					}
+					if seq[j].guard != nil && p.val != nil && dependsOnDeep(seq[j].guard, p.val) {
+						sepFromOperand = true
+					}
+					if seq[j].kind == "field-sql" || seq[j].kind == "paren" || seq[j].kind == "join" {
+						break
+					}
+					j++
+				}
+				if j >= len(seq) || seq[j].kind != "const" || !strings.HasPrefix(seq[j].text, ".") {
+					continue
+				}
+				construct := fmt.Sprintf("%s: %s directly before %q", ns.Name, p.field, seq[j].text)
+				if done[construct] {
+					continue
+				}
+				done[construct] = true
+				n++
+				last := map[string]bool{}
+				a := v.FieldAV(ns.Name, p.field)
+				for t := range a.types {
+					w.lastTypesOf(t, map[string]bool{}, last)
+				}
+				var hit []string
+				for t := range last {
+					if ints[t] {
+						hit = append(hit, t)
+					}
+				}
+				sort.Strings(hit)
+				switch {
+				case len(hit) == 0:
+					r.ok(rule, construct, w.pos(pm.fn.Pos()), fmt.Sprintf("the operand never ends with an integer token (last printed types %v)", sortedKeys(last)))
+				case sepFromOperand:
+					r.ok(rule, construct, w.pos(pm.fn.Pos()), fmt.Sprintf("the operand can end with %v, a separator computed from the operand's text is printed in between", hit))
+				default:
+					r.bad(rule, construct, w.pos(pm.fn.Pos()), fmt.Sprintf("the operand can end with the integer token of %v and the '.' follows without a separator: \"1 .x\" is printed as \"1.x\", which the lexer reads as the float \"1.\" glued to an identifier", hit))
+				}
+			}
+		}
+	}
+	if n == 0 {
+		r.errorf("no operand printed directly before a '.' piece found (SelectorExpr, DotStar expected)")
 	}
 }
